@@ -262,8 +262,34 @@ impl Expr {
 
                 let rhs = rhs.for_type(flags)?;
 
-                lhs.get_output_type(&rhs, op, flags)
-                    .with_context(|| format!("invalid operation: {} {} {}", lhs, op.symbol(), rhs))
+                let output = lhs
+                    .get_output_type(&rhs, op, flags)
+                    .with_context(|| format!("invalid operation: {} {} {}", lhs, op.symbol(), rhs))?;
+
+                if op.is_op_assign() {
+                    // the result is stored back into the left operand, which keeps its type
+                    let target = lhs.disregard_distractors(true);
+
+                    let same_kind = match (target, output.disregard_distractors(true)) {
+                        (TypeLayout::Native(target), TypeLayout::Native(output)) => {
+                            std::mem::discriminant(target) == std::mem::discriminant(output)
+                        }
+                        (target, output) => target == output,
+                    };
+
+                    if !same_kind {
+                        bail!(
+                            "invalid operation: {} {} {} yields `{}`, which cannot be stored back into `{}`",
+                            lhs,
+                            op.symbol(),
+                            rhs,
+                            output,
+                            lhs
+                        )
+                    }
+                }
+
+                Ok(output)
             }
             Expr::UnaryMinus(val) | Expr::UnaryNot(val) => val.for_type(flags),
             Expr::Callable(CallableContents::Standard { function, .. }) => {
